@@ -79,7 +79,7 @@ pub fn compare_family(ty: &str, doc: &str, script: &Script) -> Result<bool, Stri
 
 fn tokens() -> Vec<&'static str> {
     let mut v: Vec<&'static str> = TOKENS.to_vec();
-    v.extend(["<![CDATA[a]>b]]>", "<p:a>", "</p:a>", "<p:b q:x=\"2\"/>", "a b  c", "&#60;&#x20;"]);
+    v.extend(["<![CDATA[a]>b]]>", "<p:a>", "</p:a>", "<p:b q:x=\"2\"/>", "a b  c", "&#60;&#x20;", "<!---->"]);
     v
 }
 
@@ -109,7 +109,7 @@ fn schedules(n: usize, all_cuts_upto: usize, max_cuts: usize) -> Vec<Script> {
 
 pub fn run(ctx: &Ctx) {
     ctx.set_rule(
-        "documents: (a) every sequence of up to N tokens over 29 tokens (the C07 alphabet plus a CDATA section containing `]>`, prefixed \
+        "documents: (a) every sequence of up to N tokens over 30 tokens (the C07 alphabet plus a CDATA section containing `]>`, prefixed \
          element and attribute names, a text with several blanks, character references), bare and wrapped in <r>..</r>, x 25 owned target \
          types; (b) every plain serialization of the C06 quick value set, and every single-token deletion and duplication of it, \
          deserialized as its own type. Schedules of the reader: whole, uniform pieces 1, 2, 3, 7, every cut set for documents up to 10 \
